@@ -17,5 +17,5 @@ rm $s/$pkg/zz_seed_demo_test.go
 rm -rf $s
 git -C /repo apply $src/patch.diff || { echo "cannot apply to /repo"; exit 2; }
 cd /verif && ./bin/govc check -prop $id -no-evidence 2>&1 | grep "^FAILED\|^govc\|^KNOWN" | cut -c1-230 | head -8
-git -C /repo checkout -- . 
+git -C /repo apply -R $src/patch.diff
 git -C /repo status --short | head -3
